@@ -80,14 +80,15 @@ def check_tree(ck, key, tree, lltab, best, G, D, label, rep):
             return
 
 
-def part(ck, n, G, D, seed, hi, corrupt=None, offset=0):
+def part(ck, n, G, D, seed, hi, corrupt=None, offset=0, lltab=None, label=""):
     from . import c02
     rs = np.random.RandomState(31 + seed)
     # offset: log-likelihoods of large magnitude that differ by little (deep data): the optimum is the same assignment,
     # shifted by (number of data points) * offset, and stays an exact integer
-    lltab = rs.randint(0, hi + 1, size=(n, D, G)) + offset
+    if lltab is None:
+        lltab = rs.randint(0, hi + 1, size=(n, D, G)) + offset
     tab = np.ones_like(lltab)
-    oracle, r = gridoracle.run_oracle("c10_%d_%d_%d" % (n, G, D), tab, lltab=lltab, outl=False, check_def=True)
+    oracle, r = gridoracle.run_oracle("c10_%d_%d_%d%s" % (n, G, D, label), tab, lltab=lltab, outl=False, check_def=True)
     ck.add_tlc("GridOracle max-product N=%d G=%d D=%d (LL in %d..%d): forward pass = definitional optimum" % (n, G, D, offset, offset + hi), r)
     from phyclone.data.base import DataPoint
     data = [DataPoint(d, np.ascontiguousarray(lltab[d].astype(float))) for d in range(n)]
@@ -107,6 +108,61 @@ def part(ck, n, G, D, seed, hi, corrupt=None, offset=0):
     ck.sample({"state": absstate.to_json(k), "best_per_sample": oracle[k]["best"], "ll_tables": lltab.tolist()[:2]})
 
 
+def written_tables(ck):
+    """The values as WRITTEN to the results table (map command and topology archive) on grids whose step is not a short
+    decimal (128, 64 and 150 points): on the grid, a clone's value at least the sum of its children's, top-level
+    clones at most one, clonal prevalence = value - children's (1e-12, the property's tolerance)."""
+    import contextlib
+    import io
+    import os
+    import shutil
+    from phyclone.process_trace import write_map_results, write_topology_report
+    from phyclone.data.base import DataPoint
+    from .. import outputs
+    d = env.scratch("c10_written")
+    key = absstate.canon({"f": [[0, 1, 2, 3], [1, 2, 3], [2], [3]], "o": []})
+    for G in (128, 64, 150):
+        rs = np.random.RandomState(G)
+        xs = np.linspace(0, 1, G)
+        data = []
+        for i, centres in enumerate(((0.9, 0.8, 0.95), (0.5, 0.3, 0.6), (0.2, 0.1, 0.3), (0.25, 0.15, 0.2))):
+            val = np.array([-((xs - c) ** 2) * 800.0 for c in centres])
+            data.append(DataPoint(i, np.ascontiguousarray(val), name="m%d" % i))
+        tp = os.path.join(d, "trace_%d.pkl.gz" % G)
+        outputs.write_trace_file(tp, [(0, [(key, -3.0, 0), (key, -2.5, 1)])], data, ["S1", "S2", "S3"])
+        sink = io.StringIO()
+        tf, nf, ap = os.path.join(d, "map.tsv"), os.path.join(d, "map.nwk"), os.path.join(d, "arch.tar.gz")
+        with contextlib.redirect_stdout(sink):
+            write_map_results(tp, tf, nf)
+            write_topology_report(tp, os.path.join(d, "rep.tsv"), topologies_archive=ap)
+        for label, table, nw in [("map", outputs.read_table(tf), open(nf).read())] + [("archive " + k, t, w) for k, (t, w) in outputs.read_archive(ap).items()]:
+            par = outputs.parse_newick(nw)
+            kids = {}
+            for c, p in par.items():
+                kids.setdefault(p, []).append(c)
+            ck.evaluations += 1
+            for s_ in sorted(set(table["sample_id"])):
+                rows = table[table["sample_id"] == s_]
+                ccf = {str(int(r["clone_id"])): float(r["ccf"]) for _, r in rows.iterrows() if int(r["clone_id"]) != -1}
+                prev = {str(int(r["clone_id"])): float(r["clonal_prev"]) for _, r in rows.iterrows() if int(r["clone_id"]) != -1}
+                rep = {"grid": G, "output": label, "sample": s_, "ccf": ccf, "clonal_prev": prev}
+                for c, v in ccf.items():
+                    if abs(v * (G - 1) - round(v * (G - 1))) > 1e-9:
+                        ck.violation("C10|written|off_grid", "%s, %d-point grid: the written CCF %r of clone %s is not a grid point" % (label, G, v, c), rep)
+                        break
+                    ch = sum(ccf.get(k, 0.0) for k in kids.get(c, []))
+                    if v < ch - 1e-12:
+                        ck.violation("C10|written|infeasible", "%s, %d-point grid: clone %s is written with CCF %r, its children sum to %r" % (label, G, c, v, ch), rep)
+                        break
+                    if abs(prev[c] - (v - ch)) > 1e-12:
+                        ck.violation("C10|written|clonal_prev", "%s, %d-point grid: clonal prevalence %r of clone %s is not its CCF minus its children's (%r)" % (label, G, prev[c], c, v - ch), rep)
+                        break
+                if sum(ccf.get(k, 0.0) for k in kids.get("root", [])) > 1 + 1e-12:
+                    ck.violation("C10|written|top_level_sum", "%s, %d-point grid: top-level clones sum to more than one" % (label, G), rep)
+        ck.nontrivial("written:%d" % G)
+    shutil.rmtree(d, ignore_errors=True)
+
+
 def run(corrupt=None):
     ck = Check("C10")
     env.use_repo()
@@ -121,6 +177,12 @@ def run(corrupt=None):
         part(ck, 4, 3, 2, ck.seed, 2, corrupt)
         part(ck, 4, 4, 1, ck.seed + 1, 1)
         part(ck, 3, 4, 1, ck.seed + 2, 3, offset=400000)
+    # a lineage that is absent from one sample (its clones sit at CCF 0 there) but present, with children, in the other
+    def peak(k, G=4):
+        return [9 - 4 * abs(j - k) for j in range(G)]
+    absent = np.array([[peak(3), peak(3)], [peak(0), peak(2)], [peak(0), peak(1)], [peak(0), peak(1)]])
+    part(ck, 4, 4, 2, ck.seed, 0, lltab=absent, label="_absent")
+    written_tables(ck)
     ck.rule = ("every forest (no outliers) on <= 4-5 data points with integer log-likelihood tables drawn from 0..hi (many ties), three "
                "construction histories each; non-trivial = forests with > 1 clone")
     ck.exhaustive = True
